@@ -167,6 +167,14 @@ def conc_message(i, sub):
 
 
 def conc_enum(i, sub):
+    (what, top), inf = _conc_enum(i, sub)
+    e = top if what == 'enum' else top['enums'][0]
+    if len({n for _, n in e['values']}) < len(e['values']):
+        e['allow_alias'] = True          # two names for one number
+    return (what, top), inf
+
+
+def _conc_enum(i, sub):
     file = 'ab'[(i // 2) % 2]
     if i % 2 == 0:
         name, prefix = f'E{i}', f'E{i}_'
